@@ -198,8 +198,47 @@ def r3(ctx, F):
                 "is_expr_start accepts Token::%s but no prefix/atom parser handles it" % t, fn=ies)
 
 
+def r4_slice_optionals(ctx, F):
+    """slice grammar `x[start? : stop? (: step?)?]`: every component is optional. In the functions that build
+    Expr::Slice, after the second colon is eaten there is a path to the closing bracket that parses no expression
+    (`x[a:b:]`), and after the first colon there is a path to the second-colon test that parses none (`x[a::c]`)."""
+    from kern import bool_call_edges
+    root = F.one(P % "parse_index_or_slice")
+    fs = {root.uid: root}
+    for c in root.calls:
+        g = F.fns.get(c.callee_uid()) if not c.indirect else None
+        if g is not None and "parser_rd::ParserRd" in g.qpath and g.name not in ("parse_test", "parse_expr", "peek", "eat",
+                                                                                "advance", "expect", "parse_atom"):
+            fs[g.uid] = g
+    n = 0
+    for g in fs.values():
+        pt = {c.bb for c in g.calls if c.bb not in g.cleanup and re.search(r"ParserRd::<'a, I>::parse_\w+$", c.name)
+              and not re.search(r"parse_index_or_slice$", c.name) and F.fns.get(c.callee_uid()) is not None
+              and F.fns[c.callee_uid()].uid not in fs}
+        exp = {c.bb for c in g.calls if c.bb not in g.cleanup and re.search(r"ParserRd::<'a, I>::expect$", c.name)}
+        eats = [c for c in g.calls if c.bb not in g.cleanup and re.search(r"ParserRd::<'a, I>::eat$", c.name)]
+        for e in eats:
+            n += 1
+            tgt = [b for (_, b) in bool_call_edges(F, g, e, "true")]
+            ok = bool(tgt) and bool(exp & g.reach(tgt, cut_blocks=pt))
+            ctx.check(ok, "C06.R4", "slice-step-optional:%s@eat%d" % (g.name, n),
+                      "after the second colon the closing bracket can follow directly",
+                      "%s: once the second `:` of a slice is eaten every path parses an expression before `]`: "
+                      "`x[a:b:]` / `x[::]`, which the reference grammar accepts, are rejected" % g.name, fn=g, line=e.line)
+            adv = [a for a in g.calls if a.bb not in g.cleanup and re.search(r"ParserRd::<'a, I>::advance$", a.name)
+                   and e.bb in g.after(a.bb)]
+            for a in adv:
+                ctx.check(e.bb in g.reach(list(g.succs(a.bb)), cut_blocks=pt), "C06.R4",
+                          "slice-stop-optional:%s@eat%d" % (g.name, n),
+                          "after the first colon the second colon can follow directly",
+                          "%s: after the first `:` of a slice every path parses an expression before testing for the "
+                          "second `:`: `x[a::c]` is rejected" % g.name, fn=g, line=a.line)
+    ctx.floor("C06.R4", "second-colon tests in the slice parser", n, 2)
+
+
 def run(ctx):
     F = ctx.facts("core")
+    r4_slice_optionals(ctx, F)
     cmp_pw = r1(ctx, F)
     r2(ctx, F, cmp_pw)
     r3(ctx, F)
